@@ -47,7 +47,7 @@ def histories(draw, kind):
     steps.append({"k": "backward", "c": [draw(st.integers(-16, 16)) / 8.0 for _ in range(6)],
                   "mask": draw(st.sampled_from([[1, 1, 1, 1], [1, 1, 1, 1], [1, 0, 1, 1], [0, 1, 1, 0]]))})
     for _ in range(draw(st.sampled_from([3, 5, 8, 12, 18, 18, 40]))):
-        k = draw(st.sampled_from(["backward", "backward", "step", "step", "step", "zero_grad", "toggle"]))
+        k = draw(st.sampled_from(["backward", "backward", "step", "step", "step", "zero_grad", "toggle", "new_optimizer"]))
         if k == "backward":
             steps.append({"k": "backward", "c": [draw(st.integers(-16, 16)) / 8.0 for _ in range(6)],
                           "mask": draw(st.sampled_from([[1, 1, 1, 1], [1, 1, 1, 1], [1, 0, 1, 1], [0, 1, 1, 0], [0, 0, 1, 1], [1, 1, 0, 1]]))})
@@ -164,6 +164,12 @@ def check_history(c, rec):
             since_zero_backwards += 1
             if since_zero_backwards >= 2:
                 flags.add("accumulated_backward")
+            last_was_step = False
+        elif s["k"] == "new_optimizer":
+            # training continues with a newly constructed optimizer over the same tensors: it starts from fresh state
+            opt = make_opt(kind, hp, list(given))
+            ref = RefOpt(kind, hp, [np.asarray(p.data, dtype=np.float64) for p in given])
+            flags.add("optimizer_recreated")
             last_was_step = False
         elif s["k"] == "toggle":
             # freeze / unfreeze a parameter in the middle of the run (fine-tuning); what counts is the flag at step time
@@ -282,7 +288,7 @@ def _init(draw, kind):
 
 @st.composite
 def _command(draw):
-    k = draw(st.sampled_from(["backward", "backward", "step", "step", "step", "zero_grad", "toggle"]))
+    k = draw(st.sampled_from(["backward", "backward", "step", "step", "step", "zero_grad", "toggle", "new_optimizer"]))
     if k == "backward":
         return {"k": "backward", "c": [draw(st.integers(-16, 16)) / 8.0 for _ in range(6)],
                 "mask": draw(st.sampled_from([[1, 1, 1, 1], [1, 1, 1, 1], [1, 0, 1, 1], [0, 1, 1, 0], [0, 0, 1, 1]]))}
